@@ -111,7 +111,9 @@ pub enum ConnectivityConnectionClosedTrigger {
 pub struct ConnectivityConnectionIdUpdated {
     owner: Owner,
 
+    #[builder(default)]
     old: Option<ConnectionID>,
+    #[builder(default)]
     new: Option<ConnectionID>,
 }
 
@@ -163,12 +165,15 @@ pub enum ConnectionState {
 pub struct SecurityKeyUpdated {
     key_type: KeyType,
 
+    #[builder(default)]
     old: Option<HexString>,
     new: HexString,
 
     /// needed for 1RTT key updates
+    #[builder(default)]
     generation: Option<u32>,
 
+    #[builder(default)]
     trigger: Option<SecurityKeyUpdatedTrigger>,
 }
 
@@ -187,11 +192,14 @@ pub enum SecurityKeyUpdatedTrigger {
 #[builder(setter(into, strip_option), build_fn(private, name = "fallible_build"))]
 pub struct SecurityKeyRetired {
     key_type: KeyType,
+    #[builder(default)]
     key: Option<HexString>,
 
     /// needed for 1RTT key updates
+    #[builder(default)]
     generation: Option<u32>,
 
+    #[builder(default)]
     trigger: Option<SecurityKeyRetiredTrigger>,
 }
 
@@ -213,6 +221,7 @@ pub struct TransportVersionInformation {
     server_versions: Vec<QuicVersion>,
     #[serde(skip_serializing_if = "Vec::is_empty")]
     client_versions: Vec<QuicVersion>,
+    #[builder(default)]
     chosen_version: Option<QuicVersion>,
 }
 
@@ -220,8 +229,11 @@ pub struct TransportVersionInformation {
 #[derive(Builder, Debug, Clone, Serialize, Deserialize, PartialEq, Eq)]
 #[builder(setter(into, strip_option), build_fn(private, name = "fallible_build"))]
 pub struct TransportALPNInformation {
+    #[builder(default)]
     server_alpns: Option<Vec<String>>,
+    #[builder(default)]
     client_alpns: Option<Vec<String>>,
+    #[builder(default)]
     chosen_alpn: Option<String>,
 }
 
@@ -297,17 +309,27 @@ pub struct PreferredAddress {
 #[derive(Builder, Debug, Clone, Serialize, Deserialize, PartialEq, Eq)]
 #[builder(setter(into, strip_option), build_fn(private, name = "fallible_build"))]
 pub struct TransportParametersRestored {
+    #[builder(default)]
     disable_active_migration: Option<bool>,
 
+    #[builder(default)]
     max_idle_timeout: Option<u64>,
+    #[builder(default)]
     max_udp_payload_size: Option<u32>,
+    #[builder(default)]
     active_connection_id_limit: Option<u32>,
 
+    #[builder(default)]
     initial_max_data: Option<u64>,
+    #[builder(default)]
     initial_max_stream_data_bidi_local: Option<u64>,
+    #[builder(default)]
     initial_max_stream_data_bidi_remote: Option<u64>,
+    #[builder(default)]
     initial_max_stream_data_uni: Option<u64>,
+    #[builder(default)]
     initial_max_streams_bidi: Option<u64>,
+    #[builder(default)]
     initial_max_streams_uni: Option<u64>,
 }
 
@@ -318,6 +340,7 @@ pub struct TransportPacketSent {
     header: PacketHeader,
 
     /// see appendix for the QuicFrame definitions
+    #[builder(default)]
     frames: Option<Vec<QuicFrame>>,
 
     #[serde(default)]
